@@ -17,7 +17,8 @@ def oracle(ctx):
     a = text_oracles.oracle_blocksz(ctx, ctx.q(10, 60))
     b = text_oracles.known_gate_witnesses(ctx)
     c = text_oracles.search_from_disagreements(ctx, getattr(ctx, 'corr_results', []))
-    return core.merge_oracles([a, b, c])
+    d = text_oracles.known_mixed_notation_witness(ctx)
+    return core.merge_oracles([a, b, c, d])
 
 
 def check(ctx):
